@@ -4,7 +4,8 @@ prop("C14", pkg="c14",
           "compared as maps; (3) EscapeHTML off + SortMapKeys on: bytes equal the standard Encoder with SetEscapeHTML(false); (4) where encoding/json itself "
           "round-trips the value, Parse(output, subset of DontCopy*/DontMatchCaseInsensitiveStructFields) restores a deeply equal value; specialised and "
           "generic map types with values failing half-way under all 8 flag subsets; (5) number literals into interfaces under all 16 subsets of UseNumber/"
-          "UseBigInt/UseInt64/UseUint64: dynamic type by the documented precedence and exact numeric value. TrustRawMessage only with valid raw messages. "
+          "UseBigInt/UseInt64/UseUint64: dynamic type by the documented precedence and exact numeric value (literals: fixed boundary values, any int64 / uint64 / float64, and composed "
+          "integers of 17..23 digits - every 20-digit value above 2^64, not only the ones next to it). TrustRawMessage only with valid raw messages. "
           "Non-trivial = flags differ from the default and the type has a map, RawMessage, string or interface (numbers: any flag set); distinct = FNV-64 of the case.",
      quick=dict(shards=16, scale=1.5, timeout=900),
      thorough=dict(shards=16, rounds=8, scale=1.5, timeout=3000),
